@@ -30,7 +30,8 @@ def gen_cases(ck):
         pre = None
         if kind in ('file', 'extra') and rng.random() < 0.3:
             pre = (rng.randrange(nf), rng.choice([1, -1, 1000]))
-        out.append((sizes, single, damage, kind, cb, pre))
+        names = rng.choice(['plain', 'plain', 'samebase'])
+        out.append((sizes, single, damage, kind, cb, pre, names))
     return out
 
 
@@ -134,7 +135,7 @@ def oracle(sizes, kind, on_disk, cb, res, calls):
 
 
 def run(ck, model_ok):
-    ck.rule = ('layouts (1..6 files, single- and multi-file) x subsets of files missing / one byte short / one byte long x content path shapes (matching tree, extra '
+    ck.rule = ('layouts (1..6 files, single- and multi-file; file names distinct, or one basename in different directories) x subsets of files missing / one byte short / one byte long x content path shapes (matching tree, extra '
                'files present, single-file torrent at a directory, multi-file torrent at a file) x callback absent / passive / cancelling at each file x object history (fresh, or '
                'a recorded length edited in place after a first check on the same object); oracle: '
                'True iff all listed files have the recorded size, otherwise read/size error raised or reported per offending file, one call per listed file in '
@@ -142,19 +143,21 @@ def run(ck, model_ok):
     m = Model()
     pend = []
     with Scratch() as root:
-        for ci, (sizes, single, damage, kind, cb, pre) in enumerate(gen_cases(ck)):
+        for ci, (sizes, single, damage, kind, cb, pre, names) in enumerate(gen_cases(ck)):
+            sl.NAME_SCHEME = names
             d = os.path.join(root, 'c')
             os.makedirs(d)
             t, cp, on_disk = build(d, sizes, single, damage, kind)
             orig_sizes = sizes
             sizes = apply_pre(t, cp, sizes, single, pre)
             res, calls = run_impl(t, cp, cb)
-            ck.case((orig_sizes, single, tuple(sorted(damage.items())), kind, cb, pre))
+            ck.case((orig_sizes, single, tuple(sorted(damage.items())), kind, cb, pre, names))
+            ck.count('names:' + names)
             if pre is not None:
                 ck.count('history:edited-after-a-first-check')
             ck.count('kind:' + kind)
             ck.count('cb:' + ('none' if cb is None else 'passive' if cb == 0 else 'cancel'))
-            case = {'sizes': list(orig_sizes), 'single': single, 'damage': {str(k): v for k, v in damage.items()}, 'kind': kind, 'cb': cb, 'pre': pre}
+            case = {'sizes': list(orig_sizes), 'single': single, 'damage': {str(k): v for k, v in damage.items()}, 'kind': kind, 'cb': cb, 'pre': pre, 'names': names}
             v = oracle(sizes, kind, on_disk, cb, res, calls)
             if v:
                 ck.fail('oracle', v[0], case, 'C20', v[1][:300], v[1][:200])
@@ -167,6 +170,7 @@ def run(ck, model_ok):
                 if full and res != ('ret', True) and cb in (None, 0):
                     ck.fail('oracle', 'verify-ok-but-filesize-fails', case, True, repr(res), 'verify() succeeds but verify_filesize() does not')
             shutil.rmtree(d)
+            sl.NAME_SCHEME = 'plain'
             if model_ok:
                 if kind == 'multi-at-file':
                     disk = ['missing'] * len(sizes)
@@ -189,6 +193,7 @@ def run(ck, model_ok):
 
 def replay(rp):
     c = rp['case']
+    sl.NAME_SCHEME = c.get('names', 'plain')
     with Scratch() as root:
         t, cp, on_disk = build(root, tuple(c['sizes']), c['single'], {int(k): v for k, v in c['damage'].items()}, c['kind'])
         sizes = apply_pre(t, cp, tuple(c['sizes']), c['single'], tuple(c['pre']) if c.get('pre') else None)
